@@ -166,7 +166,6 @@ func c11Distinct() int {
 	return len(c11Seen)
 }
 
-
 // c11Reader delivers a body the way a network peer may: in pieces. The
 // delivery pattern is an environment answer, so it is enumerated: whole (0
 // deviations), one short read at every position (1 deviation), one byte at a
